@@ -1,10 +1,10 @@
 \* generator: every path of length <= K (K+1 for kinds with at most five transports), with the Impl level's prediction
 SPECIFICATION Spec
 CONSTANTS
-  Kinds = {"tx", "block", "header", "stateroot", "extensible", "consensus", "notaryreq", "aer", "nef", "manifest", "contract", "mptnode", "rule", "item"}
+  Kinds = {"tx", "block", "header", "stateroot", "extensible", "consensus", "notaryreq", "aer", "nef", "manifest", "contract", "mptnode", "rule", "signer", "item"}
   K = 4
   Dev = {}
-  Quirks = {"SizeOfReceived"}
+  Quirks = {"SizeOfReceived", "EncodeMarksObject", "JsonLosesArgs"}
   Origins = {"canon", "nc-signed", "nc-unsigned"}
   Mode = "enum"
 INVARIANTS Emit
